@@ -32,7 +32,7 @@ def _alarm(signum, frame):
 
 
 def _init_worker():
-    signal.signal(signal.SIGALRM, _alarm)
+    signal.signal(signal.SIGVTALRM, _alarm)
     _load_gfapy()
 
 
@@ -41,14 +41,14 @@ def guarded(fn, limit=30.0):
     FOREIGN (anything else, including non-termination: wall-clock watchdog, generous because
     the machine may be heavily loaded)."""
     try:
-        signal.setitimer(signal.ITIMER_REAL, limit)
+        signal.setitimer(signal.ITIMER_VIRTUAL, limit)
         try:
             v = fn()
         finally:
-            signal.setitimer(signal.ITIMER_REAL, 0)
+            signal.setitimer(signal.ITIMER_VIRTUAL, 0)
         return "ok", v, ""
     except _Timeout:
-        signal.setitimer(signal.ITIMER_REAL, 0)
+        signal.setitimer(signal.ITIMER_VIRTUAL, 0)
         return "FOREIGN", None, "timeout"
     except MachineryError:
         raise
